@@ -163,7 +163,10 @@ def r3_msm(ctx: Context) -> None:
     n = normaliser(ctx.prog, f, inline_locals=False)
     sim, real = f.bound_params[0], f.bound_params[1]
     # roles: ensemble moments (array over members), real moments, their standardised versions
-    ens = f"np.array([self._moment_calculator(s) for s in {sim}])"
+    comp_vars = [c.generators[0].target.id for c in ast.walk(f.node) if isinstance(c, (ast.ListComp, ast.GeneratorExp)) and len(c.generators) == 1
+                 and isinstance(c.generators[0].target, ast.Name) and src(c.generators[0].iter) == sim]
+    mv = comp_vars[0] if comp_vars else "s"
+    ens = f"np.array([self._moment_calculator({mv}) for {mv} in {sim}])"
     rm = f"self._moment_calculator({real})"
     # g, W, return values by reaching definitions at each return
     rets = returns_of(f)
@@ -210,8 +213,7 @@ def r3_msm(ctx: Context) -> None:
             ctx.fail("R3.msm", "MethodOfMomentsLoss.compute_loss_1d:return", f"MSM returns `{vals[0][:200]}`: neither g.g nor g.W.g with g = m(real) - mean_e m(sim_e)", f, r)
     ctx.check(seen_identity and seen_w, "R3.msm", "MethodOfMomentsLoss.compute_loss_1d:branches", "both identity and weighted returns exist", "an MSM branch is missing", f, f.node)
     # inverse-variance weights
-    w_defs = [s for s in walk_scope(f.node) if isinstance(s, ast.Assign) and isinstance(s.targets[0], ast.Name) and s.targets[0].id == "W"]
-    inv = [s for s in w_defs if isinstance(s.value, ast.Call) and (dotted(s.value.func) or "").endswith("diag")]
+    inv = [s for s in walk_scope(f.node) if isinstance(s, ast.Assign) and isinstance(s.targets[0], ast.Name) and isinstance(s.value, ast.Call) and (dotted(s.value.func) or "").endswith("diag")]
     ctx.floor("R3", "inverse-variance weight matrix definition", len(inv), 1)
     for s in inv:
         vals = resolve(s.value, g.nodes_of(s)[0])
@@ -287,9 +289,13 @@ def r3_fourier(ctx: Context) -> None:
     i = ctx.func("black_it.loss_functions.fourier:ideal_low_pass_filter")
     ni = normaliser(prog, i)
     sig, ff = i.params[0], i.params[1]
-    _check_returns(ctx, i, "R3.fourier-ideal", "ideal_low_pass_filter:return", "ideal filter = spectrum * mask (mask: zeros with ones on the first n)", [f"{sig} * mask"], normaliser(prog, i, inline_locals=False))
     nn = normaliser(prog, i)
-    mask_stores = [s for s in walk_scope(i.node) if isinstance(s, ast.Assign) and isinstance(s.targets[0], ast.Subscript) and src(s.targets[0].value) == "mask"]
+    mask_stores = [s for s in walk_scope(i.node) if isinstance(s, ast.Assign) and isinstance(s.targets[0], ast.Subscript) and isinstance(s.targets[0].value, ast.Name) and isinstance(s.targets[0].slice, ast.Slice)]
+    mask_name = mask_stores[0].targets[0].value.id if mask_stores else "mask"
+    _check_returns(ctx, i, "R3.fourier-ideal", "ideal_low_pass_filter:return", "ideal filter = spectrum * mask (mask: zeros with ones on the first n)", [f"{sig} * {mask_name}"], normaliser(prog, i, inline_locals=False))
+    zero_init = [s for s in walk_scope(i.node) if isinstance(s, ast.Assign) and isinstance(s.targets[0], ast.Name) and s.targets[0].id == mask_name]
+    ctx.check(len(zero_init) == 1 and str(nn.rat(zero_init[0].value)) == str(nn.rat(parse_expr(f"np.zeros({sig}.shape[0])"))), "R3.fourier-ideal", "ideal_low_pass_filter:mask-init",
+              "the mask starts as zeros over all frequencies", f"mask initialised by `{src(zero_init[0].value) if zero_init else '?'}`", i, i.node)
     ok = len(mask_stores) == 1 and str(nn.rat(mask_stores[0].targets[0].slice.upper)) == str(nn.rat(parse_expr(f"int(np.round({ff} * {sig}.shape[0]))"))) and mask_stores[0].targets[0].slice.lower is None \
         and src(mask_stores[0].value) in ("1.0", "1")
     ctx.check(ok, "R3.fourier-ideal", "ideal_low_pass_filter:mask", "the first round(f * n_freq) components are kept", f"mask store `{src(mask_stores[0]) if mask_stores else '?'}`", i, i.node)
@@ -378,11 +384,18 @@ def r3_gsl(ctx: Context) -> None:
         v = r.value
         ok = isinstance(v, ast.BinOp) and isinstance(v.op, ast.Div) and str(n1.rat(v.right)) == str(n1.rat(parse_expr(f"{sim1}.shape[0]")))
         ctx.check(ok, "R3.gsl-ensemble", "GslDivLoss.compute_loss_1d:member-mean", "the per-member divergences are averaged over the ensemble size", f"returns `{src(v)}`", c1, r)
-    for nm, attr in (("nb_values", "self.nb_values"), ("nb_word_lengths", "self.nb_word_lengths")):
+    # the two defaults are the locals handed to discretize (alphabet size) and to gsl_div_1d_1_sample (number of word lengths)
+    role_names = {}
+    for cl in calls_in(c1.node):
+        if isinstance(cl.func, ast.Attribute) and cl.func.attr == "gsl_div_1d_1_sample" and len(cl.args) >= 4:
+            role_names["nb_word_lengths"] = src(cl.args[2])
+            role_names["nb_values"] = src(cl.args[3])
+    for role, attr in (("nb_values", "self.nb_values"), ("nb_word_lengths", "self.nb_word_lengths")):
+        nm = role_names.get(role, role)
         d = _assigned(c1, nm)
         ok = len(d) == 1 and isinstance(d[0], ast.IfExp) and n1.canon(d[0].test) in (n1.canon(parse_expr(f"{attr} is None")),) and \
             str(n1.rat(d[0].body)) == str(n1.rat(parse_expr(f"int((len({real1}) - 1) / 2.0)"))) and src(d[0].orelse) == attr
-        ctx.check(ok, "R3.gsl-defaults", f"GslDivLoss.compute_loss_1d:default:{nm}", f"{nm} defaults to int((T-1)/2), else the configured value", f"{nm} is `{src(d[0]) if d else '?'}`", c1, d[0] if d else c1.node)
+        ctx.check(ok, "R3.gsl-defaults", f"GslDivLoss.compute_loss_1d:default:{role}", f"{role} defaults to int((T-1)/2), else the configured value", f"{role} is `{src(d[0]) if d else '?'}`", c1, d[0] if d else c1.node)
     # discretisation: equal-width bins between min-EPS and max+EPS, searchsorted left
     d = ctx.func("black_it.loss_functions.gsl_div:GslDivLoss.discretize")
     nd = normaliser(prog, d, inline_locals=False)
